@@ -23,7 +23,7 @@ def _val(v, t):
 
 
 def _grid(y, every):
-    days = [(1, 1), (2, 28), (3, 1), (12, 31)] if not every else [(m, d) for m in range(1, 13) for d in (1, 15, 28)] + [(12, 31)]
+    days = [(1, 1), (2, 28), (3, 1), (12, 31)] if not every else [(m, d) for m in range(1, 13) for d in (1, 28)] + [(12, 31)]
     times = [(0, 0, 0), (0, 0, 1), (11, 59, 59), (23, 59, 59), (23, 0, 30)]
     for (m, d) in days:
         for (h, mi, s) in times:
@@ -62,7 +62,7 @@ def _worker(ys):
                 if got != (d.year, d.month, d.day, d.hour, d.minute, d.second):
                     bad.setdefault("epoch", []).append((d.isoformat(), 1, str(got), "back to the date-time"))
             # differences in seconds against every other grid point of the year and of the year after
-            for d2 in list(_grid(y, every)) + list(_grid(y + 1, False)):
+            for d2 in list(_grid(y, False)) + list(_grid(y + 1, False)):
                 n += 1
                 r = mk(tu.func("dt_dtdiff")).run([E["DT_DURS"], dict(src), rec(d2)])
                 exp = int((d2 - d).total_seconds())
@@ -72,7 +72,7 @@ def _worker(ys):
                 if got != exp:
                     bad.setdefault("diff", []).append((d.isoformat(), 0, "%s .. %s: %s" % (d.isoformat(), d2.isoformat(), got), str(exp)))
             for unit in ("DT_DURS", "DT_DURM", "DT_DURH"):
-                W = WIN[unit] if every or unit != "DT_DURS" else 4000
+                W = WIN[unit] if unit != "DT_DURS" or (every and (d.month, d.day, d.hour) in ((2, 28, 23), (12, 31, 23))) else 4000
                 work = [(-W, W)]
                 while work:
                     a, b = work.pop()
